@@ -2477,7 +2477,7 @@ def translate_slot(repo, exp):
     return "\n".join(out), done, failed
 
 
-SRV_WANTED = ["Server::incomingConnection"]
+SRV_WANTED = ["Server::incomingConnection", "ServerPrivate::process"]
 
 
 class SrvFn(Fn):
@@ -2532,6 +2532,14 @@ class SrvFn(Fn):
                 cls = qt(init).replace("*", "").strip()
                 args = [c for c in kids(init) if c.get("kind") == "CXXConstructExpr"]
                 parent_this = args and [strip(a).get("kind") for a in kids(args[0]) if a.get("kind") != "CXXDefaultArgExpr"] == ["CXXThisExpr"]
+                if cls in ("QHttpEngine::Socket", "Socket") and args:
+                    a2 = [strip(a) for a in kids(args[0]) if a.get("kind") != "CXXDefaultArgExpr"]
+                    if len(a2) == 2 and a2[0].get("kind") == "DeclRefExpr" and a2[0].get("referencedDecl", {}).get("kind") == "ParmVarDecl" \
+                            and a2[1].get("kind") == "CXXThisExpr":
+                        env = dict(env)
+                        env[v["name"]] = (v["name"], "ptr:http")
+                        return ["let s := Vx.act s Vx.Act.newHttp"], env
+                    raise Untranslatable("new Socket with other arguments")
                 if cls in ("QSslSocket", "QTcpSocket") and parent_this:
                     env = dict(env)
                     env[v["name"]] = (v["name"], "ptr:ssl" if cls == "QSslSocket" else "ptr:tcp")
@@ -2576,6 +2584,21 @@ class SrvFn(Fn):
             if x.get("kind") == "UnaryOperator" and kids(x):
                 return strip(kids(x)[0]).get("referencedDecl", {}).get("name")
             return None
+        if nm == "connect" and len(real) >= 3 and self.is_ptr(real[0], env, "http"):
+            sig = signal_of(real[1])
+            me = strip(real[0]).get("referencedDecl", {}).get("name")
+            if len(real) == 4 and sig == "disconnected" and signal_of(real[3]) == "deleteLater" and \
+                    strip(real[2]).get("referencedDecl", {}).get("name") == me:
+                return ["let s := Vx.act s Vx.Act.onDisconnectedDelete"], "()", "void"
+            if len(real) == 3 and sig == "headersParsed" and strip(real[2]).get("kind") == "LambdaExpr":
+                lam = strip(real[2])
+                body = [c for c in kids(lam) if c.get("kind") == "CompoundStmt"]
+                if not body:
+                    raise Untranslatable("lambda without a body")
+                sub = LambdaFn(self, me)
+                code = sub.stmts(sub.flatten(body[-1]), dict(env), lambda e: "s", None)
+                return ["let s := Vx.act s (Vx.Act.onHeadersParsed (\n  let s : List Vx.LAct := []\n%s))" % ind(code, 2)], "()", "void"
+            raise Untranslatable("connect() of another kind on the HTTP socket")
         if nm == "connect" and len(real) >= 3 and self.is_ptr(real[0], env):
             sig = signal_of(real[1])
             if len(real) == 3 and sig == "encrypted" and strip(real[2]).get("kind") == "LambdaExpr" and self.is_ptr(real[0], env, "ssl"):
@@ -2596,6 +2619,61 @@ class SrvFn(Fn):
         return Fn.call_free(self, n, env, want_value)
 
 
+class LambdaFn(SrvFn):
+    """the body of the lambda `ServerPrivate::process` connects to headersParsed: its own action list"""
+    def __init__(self, outer, sockname):
+        self.__dict__.update(outer.__dict__)
+        self.sockname = sockname
+        self.state_ty = "List Vx.LAct"
+        self.ret = "void"
+        self.const = False
+        self.free = False
+        self.ret_override = None
+
+    def ex(self, n, env):
+        n0 = strip(n)
+        if n0.get("kind") == "MemberExpr" and n0.get("name") == "handler" and kids(n0) and strip(kids(n0)[0]).get("kind") == "CXXThisExpr":
+            return [], "ve.hasHandler", "bool"
+        return Fn.ex(self, n, env)
+
+    def effectful(self, n):
+        return strip(n).get("kind") in ("CXXMemberCallExpr", "CallExpr") or any(self.effectful(c) for c in kids(strip(n)))
+
+    def call_member(self, n, env, want_value):
+        ks = kids(n)
+        callee = strip(ks[0])
+        if callee.get("kind") == "MemberExpr" and kids(callee):
+            objn = strip(kids(callee)[0])
+            nm = callee["name"]
+            real = [x for x in ks[1:] if x.get("kind") != "CXXDefaultArgExpr"]
+            is_sock = objn.get("kind") == "DeclRefExpr" and objn.get("referencedDecl", {}).get("name") == self.sockname
+            is_handler = objn.get("kind") == "MemberExpr" and objn.get("name") == "handler"
+            if is_handler and nm == "route" and len(real) == 2 and strip(real[0]).get("referencedDecl", {}).get("name") == self.sockname:
+                a = strip(real[1])
+                while a.get("kind") in ("CXXFunctionalCastExpr", "CXXConstructExpr", "CXXTemporaryObjectExpr") and kids(a):
+                    a = strip(kids(a)[0])
+                if a.get("kind") == "CXXMemberCallExpr" and strip(kids(a)[0]).get("name") == "mid":
+                    inner = strip(kids(strip(kids(a)[0]))[0])
+                    margs = [x for x in kids(a)[1:] if x.get("kind") != "CXXDefaultArgExpr"]
+                    if inner.get("kind") == "CXXMemberCallExpr" and strip(kids(inner)[0]).get("name") == "path" and \
+                            strip(kids(strip(kids(inner)[0]))[0]).get("referencedDecl", {}).get("name") == self.sockname and len(margs) == 1:
+                        p, c, t = Fn.ex(self, margs[0], env)
+                        if t == "int" and not p:
+                            return ["let s := Vx.lact s (Vx.LAct.route %s)" % c], "()", "void"
+                raise Untranslatable("route() with a path other than socket->path().mid(n)")
+            if is_sock and nm == "writeError" and len(real) == 1:
+                p, c, t = Fn.ex(self, real[0], env)
+                if t == "int" and not p:
+                    return ["let s := Vx.lact s (Vx.LAct.err %s)" % c], "()", "void"
+        raise Untranslatable("call in the headersParsed lambda")
+
+    def call_free(self, n, env, want_value):
+        raise Untranslatable("call in the headersParsed lambda")
+
+    def simple(self, s, env):
+        return Fn.simple(self, s, env)
+
+
 def translate_srv(repo, exp):
     docs = clang_ast(repo, "server.cpp", "QHttpEngine::Server", exp)
     decls = {}
@@ -2614,7 +2692,8 @@ def translate_srv(repo, exp):
             cls = by_id.get(d.get("previousDecl"))
             if cls:
                 decls[cls + "::" + d["name"]] = d
-    ctx = Ctx(decls, {}, "")
+    sdocs = clang_ast(repo, "server.cpp", "QHttpEngine::Socket", exp)
+    ctx = Ctx(decls, enum_values(sdocs, "Socket"), "")
     ctx.fetch = lambda name: clang_ast(repo, "server.cpp", name, exp)
     ctx.fn_class = SrvFn
     done, failed = [], []
